@@ -234,6 +234,10 @@ pub struct DispCfg {
     pub refresh: u8,
     pub invert: bool,
     pub rst: bool,
+    /// how the builder is driven: order of the option setters, position of `reset_pin` among
+    /// them, and whether the parallel bus is built with `new` or through `From` (0 = colour
+    /// order, orientation, inversion, refresh order, size, offset, then reset pin; `new`)
+    pub order: u16,
 }
 
 impl DispCfg {
@@ -252,6 +256,7 @@ impl DispCfg {
             refresh: 0,
             invert: false,
             rst: true,
+            order: 0,
         }
     }
     pub fn to_json(&self) -> crate::json::J {
@@ -266,6 +271,7 @@ impl DispCfg {
             .with("refresh", self.refresh)
             .with("invert", self.invert)
             .with("reset_pin", self.rst)
+            .with("builder_call_order", self.order)
     }
     pub fn options(&self) -> ModelOptions {
         let mut o = ModelOptions::with_all((self.w, self.h), (self.ox, self.oy));
@@ -514,7 +520,8 @@ impl Model for ExtQ {
             ColorOrder::Rgb => ColorOrder::Bgr,
             ColorOrder::Bgr => ColorOrder::Rgb,
         };
-        let madctl = SetAddressMode::from(options).with_color_order(swapped);
+        // ... and scans the other way round horizontally
+        let madctl = SetAddressMode::from(options).with_color_order(swapped).with_refresh_order(options.refresh_order.flip_horizontal());
         di.write_command(madctl)?;
         di.write_command(SetInvertMode::new(options.invert_colors))?;
         let pf = PixelFormat::with_all(BitsPerPixel::from_rgb_color::<Rgb565>());
@@ -538,7 +545,64 @@ pub trait Transport: 'static {
     type E: Classify;
     /// keeps a heap buffer alive for SPI
     type Keep;
-    fn make(tl: &Tl, spi_buf: usize) -> (Self::DI, Self::Keep);
+    /// `via_from`: build the parallel bus through `From<(pins..)>` instead of `new`
+    fn make(tl: &Tl, spi_buf: usize, via_from: bool) -> (Self::DI, Self::Keep);
+    /// dispatch on `cfg.model` for an existing interface of this transport
+    fn rebuild(di: Self::DI, keep: Self::Keep, cfg: &DispCfg, tl: &Tl) -> Built;
+}
+
+macro_rules! rebuild_u8 {
+    ($T:ty) => {
+        fn rebuild(di: Self::DI, keep: Self::Keep, cfg: &DispCfg, tl: &Tl) -> Built {
+            use ModelId::*;
+            match cfg.model {
+                GC9107 => go_with::<models::GC9107, $T>(di, keep, cfg, tl),
+                GC9A01 => go_with::<models::GC9A01, $T>(di, keep, cfg, tl),
+                ILI9341Rgb565 => go_with::<models::ILI9341Rgb565, $T>(di, keep, cfg, tl),
+                ILI9341Rgb666 => go_with::<models::ILI9341Rgb666, $T>(di, keep, cfg, tl),
+                ILI9342CRgb565 => go_with::<models::ILI9342CRgb565, $T>(di, keep, cfg, tl),
+                ILI9342CRgb666 => go_with::<models::ILI9342CRgb666, $T>(di, keep, cfg, tl),
+                ILI9486Rgb565 => go_with::<models::ILI9486Rgb565, $T>(di, keep, cfg, tl),
+                ILI9486Rgb666 => go_with::<models::ILI9486Rgb666, $T>(di, keep, cfg, tl),
+                ILI9488Rgb565 => go_with::<models::ILI9488Rgb565, $T>(di, keep, cfg, tl),
+                ILI9488Rgb666 => go_with::<models::ILI9488Rgb666, $T>(di, keep, cfg, tl),
+                RM67162 => go_with::<models::RM67162, $T>(di, keep, cfg, tl),
+                ST7735s => go_with::<models::ST7735s, $T>(di, keep, cfg, tl),
+                ST7789 => go_with::<models::ST7789, $T>(di, keep, cfg, tl),
+                ST7796 => go_with::<models::ST7796, $T>(di, keep, cfg, tl),
+                Ext16x16 => go_with::<Ext<16, 16, Rgb565>, $T>(di, keep, cfg, tl),
+                Ext64x48 => go_with::<Ext<64, 48, Rgb565>, $T>(di, keep, cfg, tl),
+                Ext256x256 => go_with::<Ext<256, 256, Rgb565>, $T>(di, keep, cfg, tl),
+                Ext240x320c666 => go_with::<Ext<240, 320, Rgb666>, $T>(di, keep, cfg, tl),
+                ExtQuirk => go_with::<ExtQ, $T>(di, keep, cfg, tl),
+                other => panic!("harness: rebuild not wired for {:?}", other),
+            }
+        }
+    };
+}
+macro_rules! rebuild_u16 {
+    ($T:ty) => {
+        fn rebuild(di: Self::DI, keep: Self::Keep, cfg: &DispCfg, tl: &Tl) -> Built {
+            use ModelId::*;
+            match cfg.model {
+                GC9107 => go_with::<models::GC9107, $T>(di, keep, cfg, tl),
+                GC9A01 => go_with::<models::GC9A01, $T>(di, keep, cfg, tl),
+                ILI9341Rgb565 => go_with::<models::ILI9341Rgb565, $T>(di, keep, cfg, tl),
+                ILI9342CRgb565 => go_with::<models::ILI9342CRgb565, $T>(di, keep, cfg, tl),
+                ILI9486Rgb565 => go_with::<models::ILI9486Rgb565, $T>(di, keep, cfg, tl),
+                ILI9488Rgb565 => go_with::<models::ILI9488Rgb565, $T>(di, keep, cfg, tl),
+                RM67162 => go_with::<models::RM67162, $T>(di, keep, cfg, tl),
+                ST7735s => go_with::<models::ST7735s, $T>(di, keep, cfg, tl),
+                ST7789 => go_with::<models::ST7789, $T>(di, keep, cfg, tl),
+                ST7796 => go_with::<models::ST7796, $T>(di, keep, cfg, tl),
+                Ext16x16 => go_with::<Ext<16, 16, Rgb565>, $T>(di, keep, cfg, tl),
+                Ext64x48 => go_with::<Ext<64, 48, Rgb565>, $T>(di, keep, cfg, tl),
+                Ext256x256 => go_with::<Ext<256, 256, Rgb565>, $T>(di, keep, cfg, tl),
+                ExtQuirk => go_with::<ExtQ, $T>(di, keep, cfg, tl),
+                other => panic!("harness: rebuild on a 16-bit bus not wired for {:?}", other),
+            }
+        }
+    };
 }
 
 pub struct SpiBuf(*mut [u8]);
@@ -555,7 +619,7 @@ impl Transport for TSpi {
     type DI = SpiInterface<'static, Spi, Pin>;
     type E = SpiError<Fault, Fault>;
     type Keep = SpiBuf;
-    fn make(tl: &Tl, spi_buf: usize) -> (Self::DI, SpiBuf) {
+    fn make(tl: &Tl, spi_buf: usize, _via_from: bool) -> (Self::DI, SpiBuf) {
         // sentinel pattern: stale buffer content on the wire is recognisable
         let b: Box<[u8]> = (0..spi_buf).map(|i| 0xA0 | (i as u8 & 0x0F)).collect();
         let raw = Box::into_raw(b);
@@ -564,6 +628,7 @@ impl Transport for TSpi {
         let r: &'static mut [u8] = unsafe { &mut *raw };
         (SpiInterface::new(tl.spi(), tl.pin(Src::Dc), r), SpiBuf(raw))
     }
+    rebuild_u8!(TSpi);
 }
 type Bus8 = Generic8BitBus<Pin, Pin, Pin, Pin, Pin, Pin, Pin, Pin>;
 type Bus16 = Generic16BitBus<Pin, Pin, Pin, Pin, Pin, Pin, Pin, Pin, Pin, Pin, Pin, Pin, Pin, Pin, Pin, Pin>;
@@ -592,50 +657,65 @@ pub fn bus16(tl: &Tl) -> Bus16 {
         p(15),
     ))
 }
+pub fn bus8_from(tl: &Tl) -> Bus8 {
+    let p = |i| tl.pin(Src::D(i));
+    (p(0), p(1), p(2), p(3), p(4), p(5), p(6), p(7)).into()
+}
+pub fn bus16_from(tl: &Tl) -> Bus16 {
+    let p = |i| tl.pin(Src::D(i));
+    (p(0), p(1), p(2), p(3), p(4), p(5), p(6), p(7), p(8), p(9), p(10), p(11), p(12), p(13), p(14), p(15)).into()
+}
 pub struct TP8;
 impl Transport for TP8 {
     type DI = ParallelInterface<Bus8, Pin, Pin>;
     type E = ParallelError<Fault, Fault, Fault>;
     type Keep = ();
-    fn make(tl: &Tl, _: usize) -> (Self::DI, ()) {
-        (ParallelInterface::new(bus8(tl), tl.pin(Src::Dc), tl.pin(Src::Wr)), ())
+    fn make(tl: &Tl, _: usize, via_from: bool) -> (Self::DI, ()) {
+        let bus = if via_from { bus8_from(tl) } else { bus8(tl) };
+        (ParallelInterface::new(bus, tl.pin(Src::Dc), tl.pin(Src::Wr)), ())
     }
+    rebuild_u8!(TP8);
 }
 pub struct TP16;
 impl Transport for TP16 {
     type DI = ParallelInterface<Bus16, Pin, Pin>;
     type E = ParallelError<Fault, Fault, Fault>;
     type Keep = ();
-    fn make(tl: &Tl, _: usize) -> (Self::DI, ()) {
-        (ParallelInterface::new(bus16(tl), tl.pin(Src::Dc), tl.pin(Src::Wr)), ())
+    fn make(tl: &Tl, _: usize, via_from: bool) -> (Self::DI, ()) {
+        let bus = if via_from { bus16_from(tl) } else { bus16(tl) };
+        (ParallelInterface::new(bus, tl.pin(Src::Dc), tl.pin(Src::Wr)), ())
     }
+    rebuild_u16!(TP16);
 }
 pub struct TL1S;
 impl Transport for TL1S {
     type DI = L1<u8, KSerial>;
     type E = Fault;
     type Keep = ();
-    fn make(tl: &Tl, _: usize) -> (Self::DI, ()) {
+    fn make(tl: &Tl, _: usize, _: bool) -> (Self::DI, ()) {
         (L1::new(tl), ())
     }
+    rebuild_u8!(TL1S);
 }
 pub struct TL1P8;
 impl Transport for TL1P8 {
     type DI = L1<u8, KP8>;
     type E = Fault;
     type Keep = ();
-    fn make(tl: &Tl, _: usize) -> (Self::DI, ()) {
+    fn make(tl: &Tl, _: usize, _: bool) -> (Self::DI, ()) {
         (L1::new(tl), ())
     }
+    rebuild_u8!(TL1P8);
 }
 pub struct TL1P16;
 impl Transport for TL1P16 {
     type DI = L1<u16, KP16>;
     type E = Fault;
     type Keep = ();
-    fn make(tl: &Tl, _: usize) -> (Self::DI, ()) {
+    fn make(tl: &Tl, _: usize, _: bool) -> (Self::DI, ()) {
         (L1::new(tl), ())
     }
+    rebuild_u16!(TL1P16);
 }
 
 pub struct RefKeep(*mut L1<u8, KSerial>);
@@ -651,11 +731,12 @@ impl Transport for TL1Ref {
     type DI = &'static mut L1<u8, KSerial>;
     type E = Fault;
     type Keep = RefKeep;
-    fn make(tl: &Tl, _: usize) -> (Self::DI, RefKeep) {
+    fn make(tl: &Tl, _: usize, _: bool) -> (Self::DI, RefKeep) {
         let raw = Box::into_raw(Box::new(L1::<u8, KSerial>::new(tl)));
         // SAFETY: lives until RefKeep is dropped, after the display
         (unsafe { &mut *raw }, RefKeep(raw))
     }
+    rebuild_u8!(TL1Ref);
 }
 
 // ------------------------------------------------------------------ Rig
@@ -673,6 +754,9 @@ pub trait Rig {
     /// abort (as "budget exceeded") a call that pulls more than this many
     /// colours from its stream
     fn set_pull_limit(&mut self, limit: u64);
+    /// `Display::release()`, then a new display (possibly another model with the same
+    /// framebuffer size) is built on the very same interface object
+    fn release_rebuild(self: Box<Self>, cfg: &DispCfg, tl: &Tl) -> Built;
 }
 
 struct RigImpl<T: Transport, M: Model, RST: embedded_hal::digital::OutputPin>
@@ -685,6 +769,35 @@ where
     delay: Delay,
     pulled: u64,
     pull_limit: u64,
+}
+
+/// Iterator wrapper reporting a different (but valid) size_hint: a driver must not rely on
+/// more than the contract (lower <= remaining <= upper).
+struct Hinted<I> {
+    inner: I,
+    remaining: usize,
+    mode: u8,
+}
+impl<I: Iterator> Iterator for Hinted<I> {
+    type Item = I::Item;
+    fn next(&mut self) -> Option<I::Item> {
+        let x = self.inner.next();
+        if x.is_some() {
+            self.remaining = self.remaining.saturating_sub(1);
+        }
+        x
+    }
+    fn size_hint(&self) -> (usize, Option<usize>) {
+        let n = self.remaining;
+        match self.mode {
+            0 => (n, Some(n)),
+            1 => (0, None),
+            2 => (n.min(1), None),
+            3 => (n.min(1), Some(n + 3)),
+            4 => (0, Some(n)),
+            _ => (n / 2, Some(n.saturating_mul(2) + 1)),
+        }
+    }
 }
 
 struct Counting<'a, I> {
@@ -729,7 +842,10 @@ where
                     d.set_pixels(*sx, *sy, *ex, *ey, Counting { inner: colors.iter::<C<M>>(), n: pulled, limit })
                 }
                 Op::DrawIter { pixels } => {
-                    d.draw_iter(pixels.iter().map(|(x, y, c)| Pixel(Point::new(*x, *y), C::<M>::from_tag(*c))))
+                    // the size_hint the stream reports varies with its content (deterministic)
+                    let mode = pixels.first().map(|p| (p.2 % 7) as u8).unwrap_or(0);
+                    let it = pixels.iter().map(|(x, y, c)| Pixel(Point::new(*x, *y), C::<M>::from_tag(*c)));
+                    d.draw_iter(Hinted { inner: it, remaining: pixels.len(), mode })
                 }
                 Op::FillContiguous { rect, colors } => {
                     *pulled = 0;
@@ -776,6 +892,11 @@ where
     fn set_pull_limit(&mut self, limit: u64) {
         self.pull_limit = limit;
     }
+    fn release_rebuild(self: Box<Self>, cfg: &DispCfg, tl: &Tl) -> Built {
+        let me = *self;
+        let (di, _model, _rst) = me.display.release();
+        T::rebuild(di, me._keep, cfg, tl)
+    }
 }
 
 pub struct Built {
@@ -804,22 +925,68 @@ fn conv_init_norst<E: Classify>(e: InitError<E, core::convert::Infallible>) -> I
     }
 }
 
+/// k-th permutation of 0..6 (Lehmer code); 0 = identity
+fn permutation6(mut k: usize) -> [u8; 6] {
+    let mut items: Vec<u8> = (0..6).collect();
+    let mut out = [0u8; 6];
+    let mut f = 120; // 5!
+    for i in 0..6 {
+        let idx = k / f;
+        k %= f;
+        out[i] = items.remove(idx);
+        if i < 5 {
+            f /= 5 - i;
+        }
+    }
+    out
+}
+
+fn apply_setter<DI, M, RST>(b: Builder<DI, M, RST>, which: u8, cfg: &DispCfg) -> Builder<DI, M, RST>
+where
+    DI: Interface,
+    M: Model,
+    M::ColorFormat: InterfacePixelFormat<DI::Word>,
+    RST: embedded_hal::digital::OutputPin,
+{
+    let o = cfg.options();
+    match which {
+        0 => b.color_order(o.color_order),
+        1 => b.orientation(o.orientation),
+        2 => b.invert_colors(o.invert_colors),
+        3 => b.refresh_order(o.refresh_order),
+        4 => b.display_size(cfg.w, cfg.h),
+        _ => b.display_offset(cfg.ox, cfg.oy),
+    }
+}
+
 fn go<M: MkModel, T: Transport>(cfg: &DispCfg, tl: &Tl) -> Built
 where
     M::ColorFormat: InterfacePixelFormat<<T::DI as Interface>::Word> + TagColor,
 {
-    let (di, keep) = T::make(tl, cfg.spi_buf);
-    let o = cfg.options();
-    let b = Builder::new(M::mk(), di)
-        .color_order(o.color_order)
-        .orientation(o.orientation)
-        .invert_colors(o.invert_colors)
-        .refresh_order(o.refresh_order)
-        .display_size(cfg.w, cfg.h)
-        .display_offset(cfg.ox, cfg.oy);
+    let (di, keep) = T::make(tl, cfg.spi_buf, cfg.order & 1 == 1);
+    go_with::<M, T>(di, keep, cfg, tl)
+}
+
+/// Build and initialise a display on an interface that already exists (fresh, or released from
+/// an earlier display).
+fn go_with<M: MkModel, T: Transport>(di: T::DI, keep: T::Keep, cfg: &DispCfg, tl: &Tl) -> Built
+where
+    M::ColorFormat: InterfacePixelFormat<<T::DI as Interface>::Word> + TagColor,
+{
+    // the option setters in the order (and with the reset pin attached at the position) the
+    // configuration asks for: a builder must not care
+    let perm = permutation6((cfg.order >> 1) as usize % 720);
+    let rst_pos = if cfg.rst { 6 - ((cfg.order >> 1) as usize / 720) % 7 } else { 6 };
+    let mut b = Builder::new(M::mk(), di);
+    for which in perm.iter().take(rst_pos) {
+        b = apply_setter(b, *which, cfg);
+    }
     let mut delay = tl.delay();
     if cfg.rst {
-        let b = b.reset_pin(tl.pin(Src::Rst));
+        let mut b = b.reset_pin(tl.pin(Src::Rst));
+        for which in perm.iter().skip(rst_pos) {
+            b = apply_setter(b, *which, cfg);
+        }
         match guarded(|| b.init(&mut delay)) {
             Ok(Ok(display)) => Built {
                 init: InitResult::Ok,
